@@ -132,6 +132,8 @@ class Builtins:
 
     def isinstance_names(self, v, names: list):
         def py_is(v, n):
+            if isinstance(v, SOpaque) and v.attrs.get("isinstance") is not None:
+                return None        # a value of unknown type: ask its model
             if n == "int":
                 return isinstance(v, (int, SInt, SBool)) and not isinstance(v, float)
             if n == "bool":
@@ -171,9 +173,11 @@ class Builtins:
                         r2 = isa(n)
                         if r2 is True:
                             return True
-                        if r2 is False:
+                        if r2 is False or r2 is None:
                             continue
-                        return SBool(r2)
+                        if self.cx.branch(r2, f"isinstance-{n}"):
+                            return True
+                        continue
                     if v.kind == n or self.it.index.is_subclass(v.kind, n):
                         return True
                     if self.it.index.find_class(v.kind) is None:
@@ -227,7 +231,12 @@ class Builtins:
             t = to_term_int(v)
             return SInt(z3.If(t >= 0, t, -t), 0, None)
         if isinstance(v, SFloat):
-            return SFloat(z3.fpAbs(v.term))
+            from .values import FloatMode
+            return SFloat(z3.If(v.term >= 0, v.term, -v.term)) if FloatMode.mode == "real" else SFloat(z3.fpAbs(v.term))
+        if isinstance(v, SOpaque) and v.attrs.get("isinstance") is not None:
+            o = self.cx.opaque(v.kind, base="abs")
+            o.attrs.update({k: w for k, w in v.attrs.items() if k in ("isinstance", "binop", "eq")})
+            return o
         raise Unsupported("abs")
 
     def f_min(self, pos, kw, fr):
@@ -904,6 +913,17 @@ class Builtins:
             l.items, l.length, l.elem = [], None, None
             l.ghost = {}
             return None
+        if short == "pop" and not l.concrete and pos == [0] and "rec_fields" not in l.ghost and "arrays" not in l.ghost:
+            # pop(0) of an abstract list: the list becomes its tail
+            cx.log_write(l, "@items")
+            n = to_term_int(l.length)
+            if not cx.branch(n > 0, "pop-from-nonempty"):
+                raise PyRaise(SExc("IndexError"))
+            off = l.ghost.get("offset", z3.IntVal(0))
+            first = l.elem(SInt(off)) if l.elem is not None and l.ghost.get("offset_elem") else (l.ghost["base_elem"](off) if "base_elem" in l.ghost else cx.opaque("elem"))
+            l.ghost["offset"] = off + 1
+            l.length = int_binop("-", l.length, 1)
+            return first
         if short == "pop" and l.concrete:
             cx.log_write(l, "@items")
             if not l.items:
